@@ -10,7 +10,7 @@ spec's base database, or into an empty process), every function of the query int
 index and compared with the spec's global database, InterrogateDatabase::write is compared byte for byte with
 the spec's writer.  Real databases written by `interrogate -od` go through the spec's reader (TLC) and through
 the library the same way; their prefixes must be flagged whole as well."""
-import os, json, threading
+import os, json, threading, time
 from ..common import MachineryError, REPO, HARNESS, NCPU
 from .. import build, tlc, run
 from . import _idbq as Q
@@ -45,6 +45,18 @@ def case_for(cid, r, fpath, base_path):
     return {"id": cid, "setup": setup, "queries": queries}
 
 
+_EXP = {}
+
+
+def expected_dump(table, r, tables, merged):
+    """the dump the spec's database demands (memoised: all prefixes of a family share two of them)"""
+    key = (r["pre"], merged, r["gnext"], r["maxpos"], json.dumps(tables, sort_keys=True),
+           json.dumps(r["hdrs"]) if merged else "")
+    if key not in _EXP:
+        _EXP[key] = expected_db(table, r, tables, merged).expected_dump(r["gnext"] + 1, r["maxpos"])
+    return _EXP[key]
+
+
 def expected_db(table, r, tables, merged):
     defs = [BASE_DEF] if r["pre"] == "base" else []
     first = 4 if r["pre"] == "base" else 1
@@ -58,6 +70,8 @@ def run_check(ctx):
     build.ensure("hooked")
     funcs = Q.interface_functions()
     tier = ctx.tier
+    t0 = time.time()
+    phases = ctx.notes.setdefault("phase_s", {})
     dump = os.path.join(ctx.tmp, "dump.ndjson")
     tdump = os.path.join(ctx.tmp, "table.ndjson")
     box = {}
@@ -72,9 +86,10 @@ def run_check(ctx):
     for t in ths:
         t.start()
     # meanwhile: real databases
-    real = make_real(ctx)
+    real = Q.make_real(ctx)
     for t in ths:
         t.join()
+    phases["tlc"] = round(time.time() - t0, 1)
     res = box["main"]
     ctx.add_tlc(res)
     if res.verdict == "invariant":
@@ -87,7 +102,10 @@ def run_check(ctx):
     table = Q.Table(trec[0])
     table.check_header(funcs)
 
-    recs = tlc.read_dump(dump)
+    try:
+        recs = tlc.read_dump(dump)
+    except ValueError as e:
+        raise MachineryError("TLC dump unreadable: %s" % e)
     base = [x for x in recs if "base" in x]
     recs = [x for x in recs if "base" not in x]
     if len(base) != 1 or not recs:
@@ -119,7 +137,9 @@ def run_check(ctx):
         index[str(cid)] = r
         if r["nrec"] or r["kind"] != "ok" or r["cut"] != -1:
             distinct.add((fb, r["kind"], r["pre"]))
+    phases["render"] = round(time.time() - t0, 1)
     results = Q.run_driver(ctx, cases, timeout=10, tag="gen")
+    phases["replay"] = round(time.time() - t0, 1)
     n_eval = 0
     for cid, r in index.items():
         n_eval += 1
@@ -134,8 +154,10 @@ def run_check(ctx):
         ctx.sample(dict(file=bytes(r["file"]).decode("latin-1"), request=r["kind"], preloaded=r["pre"], minor=r["minor"],
                         cut=r["cut"], error_flag=r["err"], records_visible=sum(len(r["glob"][k]) for k in Q.KINDS)))
 
+    phases["judge"] = round(time.time() - t0, 1)
     # ---- real databases --------------------------------------------------------------------
     replay_real(ctx, table, real)
+    phases["real"] = round(time.time() - t0, 1)
 
 
 # -------------------------------------------------------------------------------------------------
@@ -151,7 +173,7 @@ def judge(ctx, table, r, out, whole, base):
     deaths = [x for x in rr if Q.died(x)]
     if deaths or len(rr) < 4:
         ctx.violation("loading a %s: %s" % (what, Q.describe_death(deaths[0]) if deaths else "driver gave no answer"),
-                      payload, classes=["C12-load-crash"])
+                      payload, classes=["C12-truncated-file-hang"] if r["cut"] != -1 and r["content"] else [])
         return
     _, flag, dump, rw = rr
     # the outcomes the property allows
@@ -172,7 +194,7 @@ def judge(ctx, table, r, out, whole, base):
         if bool(flag) != err:
             verdicts.append("error flag is %s, the spec demands %s" % (flag, err))
             continue
-        d = Q.diff_dump(expected_db(table, r, tables, merged).expected_dump(r["gnext"] + 1, r["maxpos"]), dump)
+        d = Q.diff_dump(expected_dump(table, r, tables, merged), dump)
         if d:
             verdicts.append("query interface differs from the spec's database: " + "; ".join(
                 "%s(%s%s) = %r, expected %r" % (fn, i, "" if n is None else ", %s" % n, g, e) for fn, i, n, e, g in d[:4]))
@@ -195,34 +217,6 @@ def judge(ctx, table, r, out, whole, base):
 
 
 # -------------------------------------------------------------------------------------------------
-def make_real(ctx):
-    """databases written by interrogate itself: the shipped interrogatedb test headers and harness/idb_hdrs,
-    each once with -od only (index numbers as allocated) and once with -oc (remapped, canonical)."""
-    work = os.path.join(ctx.tmp, "real")
-    os.makedirs(work)
-    hdrs = []
-    for d in (os.path.join(REPO, "tests", "interrogatedb"), os.path.join(HARNESS, "idb_hdrs")):
-        for f in sorted(os.listdir(d)):
-            if f.endswith(".h"):
-                hdrs.append(os.path.join(d, f))
-    pinc = os.path.join(REPO, "parser-inc")
-    items = [(h, c) for h in hdrs for c in (False, True)]
-
-    def one(it):
-        h, canon = it
-        name = os.path.basename(h)[:-2] + ("_c" if canon else "")
-        args = ["-od", name + ".in", "-module", "m", "-library", "lib" + name, "-S" + pinc]
-        if canon:
-            args += ["-oc", name + ".cxx", "-c", "-fnames"]
-        r = run.run_tool("interrogate", args + [h], cwd=work, timeout=120, env={"SOURCE_DATE_EPOCH": "1700000000"},
-                         outputs=[name + ".in"])
-        p = os.path.join(work, name + ".in")
-        if r.rc != 0 or not os.path.exists(p):
-            raise MachineryError("interrogate -od failed on %s: rc %s %s" % (h, r.rc, r.stderr[-800:]))
-        return dict(name=name, path=p, canon=canon, bytes=open(p, "rb").read())
-    return run.pmap(one, items)
-
-
 def replay_real(ctx, table, real):
     inp = os.path.join(ctx.tmp, "ext.json")
     dump = os.path.join(ctx.tmp, "ext.ndjson")
@@ -246,7 +240,7 @@ def replay_real(ctx, table, real):
         index[cid] = (x, r)
         # prefixes of the real file: all of the small ones, a stride through the big ones
         n = len(x["bytes"])
-        stride = 1 if n <= 700 else (7 if ctx.tier == "quick" else 2)
+        stride = 1 if n <= 700 else max(1, n // (150 if ctx.tier == "quick" else 1500))
         for cut in list(range(0, n, stride)) + [n - 1, n - 2]:
             if 0 <= cut < n:
                 p = x["path"] + ".cut%d" % cut
@@ -259,6 +253,7 @@ def replay_real(ctx, table, real):
     results = Q.run_driver(ctx, cases, timeout=10, tag="real")
     nothing = Q.Db(table, {k: [] for k in Q.KINDS}, [], 1)
     n_cut = 0
+    nothing_dump = {}
     for cid, (x, r) in index.items():
         out = results[cid]
         if cid.startswith("real-"):
@@ -278,11 +273,13 @@ def replay_real(ctx, table, real):
         deaths = [v for v in rr if Q.died(v)]
         if deaths or len(rr) < 4:
             ctx.violation("loading %s.in cut at byte %d: %s" % (x["name"], cut, Q.describe_death(deaths[0]) if deaths else "no answer"),
-                          payload, classes=["C12-load-crash"])
+                          payload, classes=["C12-truncated-file-hang"] if content else [])
             continue
         flag, dump_ = rr[1], rr[2]
         gnext = by_name[x["name"]]["gnext"]
-        empty = not Q.diff_dump(nothing.expected_dump(gnext + 1, 2), dump_)
+        if gnext not in nothing_dump:
+            nothing_dump[gnext] = nothing.expected_dump(gnext + 1, 2)
+        empty = not Q.diff_dump(nothing_dump[gnext], dump_)
         if content and not (flag and empty):
             ctx.violation("%s.in cut at byte %d (content removed): error flag %s, %s" % (
                 x["name"], cut, flag, "nothing visible" if empty else "records of the truncated file are visible"), payload)
